@@ -84,7 +84,7 @@ package hub
 //@   modifies h.connections[@K()].$closeCalls, h.connections[@K()].$lastSafe, h.connections[@K()].$lastCode, h.connections[@K()].$lastReason
 
 //@ func (h *Hub).CancelPairingWithSKI(ski) entry [C15,C10]
-//@   ensures [C10] D3-aborted: @K() in old(h.connections) ==> old(h.connections[@K()]).$abortCalls == old(h.connections[@K()].$abortCalls) + 1
+//@   ensures [C10,C01] D3-aborted: @K() in old(h.connections) ==> old(h.connections[@K()]).$abortCalls == old(h.connections[@K()].$abortCalls) + 1
 //@   ensures [C10] D3-untrusted: @K() in h.remoteServices && !h.remoteServices[@K()].trusted && h.remoteServices[@K()].connectionStateDetail.state == api.ConnectionStateNone
 //@   ensures [C10] D3-counter: !(@K() in h.connectionAttemptCounter)
 //@   ensures [C15] C2-others: @RSFRAME(h) && (forall j: string :: j != @K() ==> $Trusted[j] == old($Trusted[j]))
